@@ -255,10 +255,10 @@ DOMNode* DOMAttrImpl::rename(const XMLCh* namespaceURI, const XMLCh* name)
     DOMElement* el = getOwnerElement();
     DOMDocumentImpl* doc = (DOMDocumentImpl*)fParent.fOwnerDocument;
 
-    if (el)
-        el->removeAttributeNode(this);
-
     if (!namespaceURI || !*namespaceURI) {
+        if (el)
+            el->removeAttributeNode(this);
+
         fName = doc->getPooledString(name);
 
         if (el)
@@ -271,8 +271,11 @@ DOMNode* DOMAttrImpl::rename(const XMLCh* namespaceURI, const XMLCh* name)
     }
     else {
 
-        // create a new AttrNS
+        // create a new AttrNS (throws for a malformed name, before anything is changed)
         DOMAttr* newAttr = doc->createAttributeNS(namespaceURI, name);
+
+        if (el)
+            el->removeAttributeNode(this);
 
         // transfer the userData
         doc->transferUserData(castToNodeImpl(this), castToNodeImpl(newAttr));
